@@ -850,7 +850,14 @@ class Gen:
             return self.lines(p + ["if %s then (" % v], pad) + "\n" + ta + "\n" + pad + ") else (\n" + tb + "\n" + pad + ")"
         if k == "while":
             _, c, body = s
-            state = [n for n in env if n in self.assigned(body)]
+            # the loop state: the variables of the context that the body assigns, in a canonical order
+            # (arrays, bools, digits, u32s, usizes; declaration order within a class) so that re-ordering
+            # independent `let`s of different types in the source does not change the generated term
+            rank = {"buint": 0, "bool": 1, "Digit": 2, "ExpType": 3, "usize": 4}
+            asg = self.assigned(body)
+            state = [n for n in env if n in asg]
+            state = [n for _, _, n in sorted((rank.get(rs(env[n].ty) if not isinstance(rs(env[n].ty), (TVar, tuple)) else "", 5), k, n)
+                                             for k, n in enumerate(state))]
             for n in state:
                 if not env[n].mut:
                     self.die("loop assigns immutable variable " + n)
